@@ -4,6 +4,7 @@ import (
 	"errors"
 	"fmt"
 	"regexp"
+	"runtime"
 	"strconv"
 	"strings"
 	"sync"
@@ -197,11 +198,13 @@ func runCacheConc(c *Case) string {
 
 // runRxCache: the glue between the function library and the pattern cache (getRegexp, the exported
 // RegexpCache variable that clients may replace).  extra = ops separated by ';':
-//   W<cap>,<mode>          replace xpath.RegexpCache by a new cache with that capacity whose loader counts its
-//                          calls; mode 1 compiles "(?i)"+pattern (a client-customised loader)
-//   M<valid>,<hexp>,<hexs> matches(s, p) with the pattern computed at run time
-//   R<valid>,<hexp>,<hexs> replace(s, p, '#')
-//   L<valid>,<hexp>        Compile of matches('x', p) with a literal pattern (compile-time pre-check)
+//
+//	W<cap>,<mode>          replace xpath.RegexpCache by a new cache with that capacity whose loader counts its
+//	                       calls; mode 1 compiles "(?i)"+pattern (a client-customised loader)
+//	M<valid>,<hexp>,<hexs> matches(s, p) with the pattern computed at run time
+//	R<valid>,<hexp>,<hexs> replace(s, p, '#')
+//	L<valid>,<hexp>        Compile of matches('x', p) with a literal pattern (compile-time pre-check)
+//
 // Each op reports its result against Go's regexp under the current mode, the loader calls so far and the
 // number of entries the cache holds.
 func runRxCache(c *Case) (out string) {
@@ -390,4 +393,40 @@ func runRxSel(c *Case, tree *Tree) string {
 		got = strings.Join(g, ",")
 	}()
 	return "rxsel:" + got + "~" + strings.Join(want, ",")
+}
+
+// runGrowth: extra = "<hex of a predicate>;n1;n2".  The expression *P…P with n predicates is compiled and all its
+// nodes are drawn; reported is by what factor the memory allocated for that grows from n1 to n2 predicates (a
+// well-behaved engine: about n2/n1; an engine that copies its query tree once per reference to the filtered step:
+// 2^(n2-n1)).
+func runGrowth(c *Case, tree *Tree) string {
+	f := strings.Split(c.Extra, ";")
+	pred := unhx(f[0])
+	n1, _ := strconv.Atoi(f[1])
+	n2, _ := strconv.Atoi(f[2])
+	measure := func(n int) (uint64, bool) {
+		e, err := xpath.Compile("*" + strings.Repeat(pred, n))
+		if err != nil {
+			return 0, false
+		}
+		var m0, m1 runtime.MemStats
+		runtime.GC()
+		runtime.ReadMemStats(&m0)
+		it := e.Select(tree.At(c.Ctx, true))
+		for k := 0; k < maxResults && it.MoveNext(); k++ {
+		}
+		runtime.ReadMemStats(&m1)
+		return m1.TotalAlloc - m0.TotalAlloc + 1, true
+	}
+	a, ok1 := measure(n1)
+	b, ok2 := measure(n2)
+	if !ok1 || !ok2 {
+		return "cerr"
+	}
+	ratio := float64(b) / float64(a)
+	bound := 8 * float64(n2) / float64(n1) // generous: linear or quadratic growth stays far below it
+	if ratio > bound {
+		return fmt.Sprintf("growth:exponential(x%.0f from %d to %d predicates)", ratio, n1, n2)
+	}
+	return "growth:ok"
 }
